@@ -335,7 +335,7 @@ func c10Criteria(env *core.Env, cc *c10Coll, cv fhirpath.EvaluateOption, expectI
 		}
 	}
 	// extension(u) = extension.where(url = u)
-	for _, u := range []string{"http://example.org/ext/a", "http://example.org/ext/b", "http://none"} {
+	for _, u := range []string{"http://example.org/ext/a", "http://example.org/ext/b", "http://none", "http://example.org/ext/A", "http://Example.org/ext/a", "http://example.org/ext/a/", "HTTP://EXAMPLE.ORG/EXT/A", "http://example.org/ext/", "http://example.org/ext/ab"} {
 		var want []*model.Node
 		any := false
 		for _, nd := range nodes {
